@@ -11,6 +11,7 @@ import re
 import types as _types
 
 from rv import core, sched
+from rv.locks import wrap_all_locks
 from rv.vclock import VClock, patched
 
 PID = "C07"
@@ -266,7 +267,7 @@ def thread_case(ctx, n):
         loop = CoherentFeedForwardLoop(ATP_Store(10 ** 6, silent=True), gate_logic=GateLogic[logic], enable_circuit_breaker=False,
                                        enable_cache=cache, silent=True)
         loop.executor, loop.assessor = PromptStub("Gene_Z (Exec)", "E"), PromptStub("Gene_Y (Risk)", "A")
-        loop._lock = sched.SchedLock(loop._lock, "loop._lock")
+        wrap_all_locks(loop, sched.SchedLock, "loop")
 
         def mk(ops):
             return lambda: [loop.run(p) for (p, _, _) in ops]
